@@ -6,6 +6,8 @@ PROPS = [json.loads(l)['id'] for l in open(os.path.join(ROOT, 'properties.jsonl'
 
 BASELINE = "cd /repo && /venv/bin/python -m pytest -ra -q -p no:cacheprovider --timeout=900 --continue-on-collection-errors"
 
+CONN_NOTE = "Trusted: TLC; the harness (virtual-time loop, simulated link over the real TransportTCP / aiohttp websocket transport classes, recording application, independent wire decoder); the correspondence between recorded events and what happened (demonstrated by ./check selftest: corrupted traces and source-level mutants are rejected). Schedules are those reachable at callback granularity on CPython's FIFO loop. Exhaustive only within the constants of the model-checking configs; larger instances are covered by recorded traces, not exhaustively. Kernel sockets, TLS, QUIC are not driven."
+
 # id -> (level, technique, text, note, design_ref, engine)
 CLAIMED = {
  'C13': ('model_checking',
@@ -17,6 +19,34 @@ CLAIMED = {
          'Trusted: TLC, the ~300-line replayer, the reduction of the id space through StreamControl._maximum_stream_id (the suite\'s own device). '
          'Histories longer than the reduced space are covered because the graph is complete (every reachable state, every operation).',
          'DESIGN 6/C13', 'ids'),
+ 'C01': ('model_checking',
+   'TLC trace validation of recorded executions of the real endpoints against RSocket.tla (+ design-level TLC model checking of the same monitors)',
+   'Recorded traces of the real endpoints (all five interaction models, either initiator, fragment sizes none/64/65/67/100/1000, TCP framing with adversarial read chunking and message framing, gated sender, scripted and library publishers) are validated by TLC against RSocket.tla: every delivery must be the next undelivered payload of its own stream and direction, byte-for-byte (payload ids are resolved from the delivered bytes), responses correlate with their requests, and at quiescence everything handed has been delivered exactly once.',
+   CONN_NOTE, 'DESIGN 6/C01', 'conn'),
+ 'C05': ('model_checking',
+   'TLC trace validation of recorded executions of the real endpoints against RSocket.tla (+ design-level TLC model checking of the same monitors)',
+   "Per-stream FIFO and fragment contiguity are clauses of the send-queue model in RSocket.tla (OnEnq/OnTx): every frame on the wire must be the next fragment of the oldest queued frame of its stream, and what the peer's transport decodes must equal what was sent. Families hold the sender's gate closed while several fragmented and unfragmented frames are queued on the same and on different streams.",
+   CONN_NOTE, 'DESIGN 6/C05', 'conn'),
+ 'C06': ('model_checking',
+   'TLC trace validation of recorded executions of the real endpoints against RSocket.tla (+ design-level TLC model checking of the same monitors)',
+   "Credit accounting is a monitor of RSocket.tla evaluated from the emitting endpoint's own receptions: a library stream source never has more elements queued than credit received, the n on the wire equals what the application granted, and at quiescence everything available within credit was delivered.",
+   CONN_NOTE, 'DESIGN 6/C06', 'conn'),
+ 'C07': ('model_checking',
+   'TLC trace validation of recorded executions of the real endpoints against RSocket.tla (+ design-level TLC model checking of the same monitors)',
+   'Signal-sequence monitors (subscribe first and once, at most one terminal, nothing after it, future resolved once) evaluated by TLC on every recorded callback of every subscriber/future in both roles.',
+   CONN_NOTE, 'DESIGN 6/C07', 'conn'),
+ 'C08': ('model_checking',
+   'TLC trace validation of recorded executions of the real endpoints against RSocket.tla (+ design-level TLC model checking of the same monitors)',
+   "A wire monitor per endpoint (RSocket.tla OnEnq) judges every queued frame against the endpoint's own earlier emissions and receptions: SETUP first and once, parity, first frame is a request, frame types allowed for role and interaction model, positive initial n, no payload after own complete, nothing after ERROR / requester CANCEL / both directions complete, connection frames on stream 0 only.",
+   CONN_NOTE, 'DESIGN 6/C08', 'conn'),
+ 'C09': ('model_checking',
+   'TLC trace validation of recorded executions of the real endpoints against RSocket.tla (+ design-level TLC model checking of the same monitors)',
+   "Cancellation monitors: exactly one CANCEL per pending cancellation, nothing delivered to the canceller afterwards, the peer's publisher / handler future / library source is cancelled by quiescence and produces nothing afterwards; cancels are issued at random moments including in the same read as the request.",
+   CONN_NOTE, 'DESIGN 6/C09', 'conn'),
+ 'C10': ('model_checking',
+   'TLC trace validation of recorded executions of the real endpoints against RSocket.tla (+ design-level TLC model checking of the same monitors)',
+   'At every quiescence snapshot the real stream table and reassembly cache of both endpoints are compared with the set of interactions the specification still considers live (normally empty), over every ending the families produce.',
+   CONN_NOTE, 'DESIGN 6/C10', 'conn'),
 }
 
 NOT_YET = 'machinery for this property is still being built in this round (see DESIGN.md section 11); not claimed until its check exists'
@@ -51,6 +81,9 @@ def main():
         'engines': [
             {'name': 'ids', 'path': 'spec/StreamIds.tla + vf/props/c13.py', 'serves_properties': ['C13'],
              'kind_free_text': 'TLA+ component spec, TLC exhaustive + full state-graph replay on the real object'},
+            {'name': 'conn', 'path': 'spec/RSocket.tla + spec/RSocketTrace.tla + vf/harness + vf/props/conn.py',
+             'serves_properties': [p for p in PROPS if p in CLAIMED and CLAIMED[p][5] == 'conn'],
+             'kind_free_text': 'connection-level TLA+ monitors; real endpoints driven under a virtual-time loop over a simulated link; recorded traces validated by TLC in batches'},
         ],
         'checks': checks,
         'notes': 'Model-based verification with explicit TLA+ specifications (spec/*.tla) checked by TLC and bound to /repo by conformance checks in both directions. See DESIGN.md.',
